@@ -245,6 +245,29 @@ func runVT(idx int, beh behaviour, seed int64) *caseRec {
 	handler := service.NewStreamHandler(auth, vtTimeout)
 	handler.SetTargetDialer(&vtDialer{b: b, cc: cc, tsrv: &tsrv})
 
+	// how a connection is handed to the code: directly to the StreamHandler (with the harness' metrics object), or - when
+	// TCPVT_SERVICE=1 and the behaviour needs no target - through service.NewShadowsocksService(...).HandleStream, the
+	// wiring layer that creates the metrics object with ServiceMetrics.AddOpenTCPConnection
+	handle := func(ctx context.Context, conn transport.StreamConn) {
+		b.update(1, func(o *connObs) {
+			o.opened = true
+			o.acceptAt = time.Since(b.t0).Milliseconds()
+			o.mlog = append(o.mlog, mrec{M: "Open", N: []int64{}})
+		})
+		handler.Handle(ctx, conn, &recMetrics{b: b, c: 1})
+	}
+	viaService := os.Getenv("TCPVT_SERVICE") == "1" && ntgt == 0 && sc.Hs != "valid"
+	if viaService {
+		svc, err := service.NewShadowsocksService(service.WithCiphers(ciphers), service.WithReplayCache(&rc),
+			service.WithMetrics(&recServiceMetrics{b: b, c: func(net.Conn) int { return 1 }}))
+		if err != nil {
+			panic(err)
+		}
+		handle = func(ctx context.Context, conn transport.StreamConn) {
+			b.update(1, func(o *connObs) { o.opened = true; o.acceptAt = time.Since(b.t0).Milliseconds() })
+			svc.HandleStream(ctx, conn)
+		}
+	}
 	// prime the replay cache (a complete earlier use of the same handshake; not part of the case)
 	for _, p := range primes {
 		cli, srv := memPair(&net.TCPAddr{IP: net.IPv4(127, 0, 0, 1), Port: 50001}, &net.TCPAddr{IP: net.IPv4(127, 0, 0, 1), Port: 9000})
@@ -262,6 +285,9 @@ func runVT(idx int, beh behaviour, seed int64) *caseRec {
 		cli.Close()
 	}
 
+	// the context StreamServe hands to its handlers; cancelled when the listener is closed (tcp.go:234-240)
+	srvCtx, srvCancel := context.WithCancel(context.Background())
+	defer srvCancel()
 	base := time.Now()
 	ms := func() int64 { return time.Since(base).Milliseconds() }
 	unit := vtTimeout / 2
@@ -387,11 +413,6 @@ func runVT(idx int, beh behaviour, seed int64) *caseRec {
 			wg.Add(2)
 			go func() {
 				defer wg.Done()
-				b.update(1, func(o *connObs) {
-					o.opened = true
-					o.acceptAt = ms()
-					o.mlog = append(o.mlog, mrec{M: "Open", N: []int64{}})
-				})
 				func() {
 					// as StreamServe does (tcp.go:247-256): deferred close of the connection, recovered panic
 					defer func() {
@@ -401,7 +422,7 @@ func runVT(idx int, beh behaviour, seed int64) *caseRec {
 							b.mu.Unlock()
 						}
 					}()
-					handler.Handle(context.Background(), srv, &recMetrics{b: b, c: 1})
+					handle(srvCtx, srv)
 				}()
 				srv.Close() // StreamServe's deferred clientConn.Close()
 				b.update(1, func(o *connObs) { o.handled = true })
@@ -434,6 +455,8 @@ func runVT(idx int, beh behaviour, seed int64) *caseRec {
 					o.clientDone = true
 				})
 			}(cli)
+		case "CloseListener":
+			srvCancel()
 		case "CSend":
 			t := cc.plan.Toks[cc.nsent]
 			cc.nsent++
